@@ -62,4 +62,13 @@ if os.path.exists(os.path.join(deliver, "notes.md")):
     shutil.copy(os.path.join(deliver, "notes.md"), os.path.join(dst, "notes.md"))
     meta["needs_to_manifest"] = open(os.path.join(deliver, "notes.md")).read()[:1500]
 meta["what_was_run"] = "tools/try_seeded.py: demo on pristine and patched scratch worktree, tools/baseline_check.py on the patched worktree, quick checks with VERIF_REPO=<patched worktree>"
-json.dump(meta, open(os.path.join(dst, "meta.json"), "w"), indent=1)
+mp = os.path.join(dst, "meta.json")
+if os.path.exists(mp):
+    try:
+        oldm = json.load(open(mp))
+        for k in ("first_evaluation", "note", "superseded"):
+            if k in oldm and k not in meta:
+                meta[k] = oldm[k]
+    except Exception:
+        pass
+json.dump(meta, open(mp, "w"), indent=1)
